@@ -16,11 +16,12 @@ impl Fifo {
     pub fn new(items: [Option<u8>; 2], delay: u8) -> Self { Self { q: Cell::new([items[0], items[1], None, None]), delay } }
     pub fn new4(items: [Option<u8>; 4], delay: u8) -> Self { Self { q: Cell::new(items), delay } }
     fn push(&self, x: u8) {
+        // (no loop: the harnesses' unwinding bound is reserved for the loop inside ComposedProcessors::next)
         let mut q = self.q.get();
-        let mut i = 0;
-        let mut done = false;
-        while i < 4 { if !done && q[i].is_none() { q[i] = Some(x); done = true; } i += 1; }
-        assert!(done, "harness: fifo bound");
+        if q[0].is_none() { q[0] = Some(x); }
+        else if q[1].is_none() { q[1] = Some(x); }
+        else if q[2].is_none() { q[2] = Some(x); }
+        else { assert!(q[3].is_none(), "harness: fifo bound"); q[3] = Some(x); }
         self.q.set(q);
     }
     fn pop(&self) -> Option<u8> { let mut q = self.q.get(); let x = q[0]; if x.is_some() { q[0] = q[1]; q[1] = q[2]; q[2] = q[3]; q[3] = None; self.q.set(q); } x }
